@@ -1815,7 +1815,8 @@ class _Desugar(ast.NodeTransformer):
         out = self._search_then_use(self._first_match(self._walrus(
             self._unroll(self._unroll_records(self._table_comprehension(
                 self._accumulate(self._devirtualise(
-                    self._sink_after_choice(out)))))))))
+                    self._sink_after_choice(
+                        self._const_then_test(out))))))))))
         out = self._conditional_assign(self._match_literals(out))
         return self._dict_dispatch(out)
 
@@ -1878,6 +1879,48 @@ class _Desugar(ast.NodeTransformer):
                     self.count += 1
                     continue
             out.append(h)
+        return out
+
+    def _const_then_test(self, stmts):
+        """x = None                          (what a defaulted parameter of a
+           if x is None: x = E   ->  x = E    written-out helper leaves)"""
+        out = list(stmts)
+        i = 0
+        while i + 1 < len(out):
+            a, b = out[i], out[i + 1]
+            if isinstance(a, ast.Assign) and len(a.targets) == 1 and \
+                    isinstance(a.targets[0], ast.Name) and \
+                    isinstance(a.value, ast.Constant) and \
+                    isinstance(b, ast.If):
+                x, val = a.targets[0].id, a.value.value
+                t, pol = b.test, True
+                while isinstance(t, ast.UnaryOp) and \
+                        isinstance(t.op, ast.Not):
+                    t, pol = t.operand, not pol
+                d = None
+                if isinstance(t, ast.Name) and t.id == x:
+                    d = bool(val)
+                elif isinstance(t, ast.Compare) and len(t.ops) == 1 and \
+                        isinstance(t.left, ast.Name) and t.left.id == x and \
+                        isinstance(t.comparators[0], ast.Constant) and \
+                        isinstance(t.ops[0], (ast.Is, ast.IsNot)) and \
+                        (val is None or t.comparators[0].value is None or
+                         isinstance(val, bool)):
+                    same = val is t.comparators[0].value
+                    d = same if isinstance(t.ops[0], ast.Is) else not same
+                if d is not None:
+                    taken = b.body if d == pol else b.orelse
+                    new = list(taken)
+                    drop = bool(new) and isinstance(new[0], ast.Assign) and \
+                        len(new[0].targets) == 1 and \
+                        isinstance(new[0].targets[0], ast.Name) and \
+                        new[0].targets[0].id == x and not any(
+                            isinstance(n, ast.Name) and n.id == x
+                            for n in ast.walk(new[0].value))
+                    out[i:i + 2] = ([] if drop else [a]) + new
+                    self.count += 1
+                    continue
+            i += 1
         return out
 
     def _sink_after_choice(self, stmts):
